@@ -221,6 +221,10 @@ def requery_cases(tier):
                          kinds=["sort"] * 3 + ["remove"] * 3 + ["add"] * 2 + ["add_node"] * 2 + ["prepend_sibling", "move", "remove_children", "copy_to", "set_data"])
 
 
+# (what round 8 added to the case domain; part of the evidence text)
+RULE_ROUND8 = ' One generated forest in 20 (60 in the thorough tier) is a BIG one (gen.big_specs: a child list of 11..300 nodes, that many clones of one data object, more than 256 nodes), with node references aimed at notable positions of the long child lists.'
+RULE = RULE + RULE_ROUND8
+
 PARTS = [
     Part("kind-patterns", run_pattern, enum=enum_cases),
     Part("random-typed", run_random, strategy=lambda tier: hyp_cases(tier), n={"quick": 600, "thorough": 80000}),
